@@ -19,6 +19,13 @@ func gen(rng *rand.Rand, tier core.Tier, emit core.Emit) {
 	for _, k := range []string{"2", "3", "50", "400", "1500"} {
 		emit("udpglue", k)
 	}
+	nw := 12
+	if tier == core.Thorough {
+		nw = 150
+	}
+	for i := 0; i < nw; i++ {
+		emit("whist", reputil.WireHistory(rng, 3+rng.Intn(10), 2+rng.Intn(2), 10, 3)...)
+	}
 	n, maxLen := 300, 40
 	if tier == core.Thorough {
 		n, maxLen = 600, 200
@@ -84,6 +91,13 @@ func exec(op string, args []string) []string {
 	if op == "udpglue" {
 		var out []string
 		if txt, ok := core.Guard(func() { out = runUDPGlue(args) }); !ok {
+			return []string{fmt.Sprintf("harness-panic:%s", txt)}
+		}
+		return out
+	}
+	if op == "whist" { // the same kind of history through the real reporter component over real sockets
+		var out []string
+		if txt, ok := core.Guard(func() { out = reputil.RunWireHistory(args) }); !ok {
 			return []string{fmt.Sprintf("harness-panic:%s", txt)}
 		}
 		return out
